@@ -32,3 +32,4 @@ def run(ctx):
     ctx.children(b, 16, run='TestC01$', timeout=3000, crash_key='C01/crash', env={'VERIF_C01_ROUNDS': '3' if not ctx.thorough else '6'})
     ctx.children(b, 8, run='TestC01DroppedBuilder', timeout=3000, crash_key='C01/crash')
     ctx.children(b, 1, run='TestC01Library', timeout=300, crash_key='C01/crash')
+    ctx.children(b, 1, run='TestC01Generics', timeout=300, crash_key='C01/crash')
